@@ -87,6 +87,10 @@ META = {
                  'default is not reached) and the per-registry scan of InheritableSelectResults (all hierarchies of a run '
                  'share ONE class registry and are declared one after the other, each after selects of the earlier ones) '
                  'are exercised by the harness, not modelled',
+                 'derived selects (cls.select(f1).filter(f2)...) are modelled as the select of the conjunction; an operation '
+                 'through an instance that went through pickle.dumps / loads with an emptied cache is modelled as the same '
+                 'operation through a fetched instance (what __getstate__/__setstate__ keep of the _parent chain is checked '
+                 'by the oracle and the correspondence only)',
                  'the per-level value caches of the main connection and Transaction.commit (expiry of every level of every '
                  'chain fetched in the transaction: C15_commit_after_write_and_destroy_coherent); what the real commit '
                  'expires is checked by the oracle only: instances loaded on the main connection before a transaction '
@@ -1423,9 +1427,18 @@ def minimise(shape, ops, kind, cold=False):
     return ops
 
 
+def op_key(op):
+    """like op_line, but naming what the model line does not show"""
+    if op[0] in ('pread', 'pwrite', 'pdestroy'):
+        return 'unpickled:' + op_line(op)
+    if op[0] == 'selectf':
+        return 'select %d %s' % (op[1], fmt_filter(op[2])) + ''.join(' .filter %s' % fmt_filter(g) for g in op[3:])
+    return op_line(op)
+
+
 def case_key(kind, shape, ops, cold=False):
     return 'C15:%s%s:%s:%s' % (kind, ':cold' if cold else '', ''.join('%s%d%d%s' % ('r' if x[0] is None else x[0], x[1], x[2], 'u' if len(x) > 3 and x[3] else '') for x in shape),
-                             ';'.join(op_line(op) for op in ops))
+                             ';'.join(op_key(op) for op in ops))
 
 
 # ----------------------------------------------------------------------------- run
